@@ -613,6 +613,8 @@ func walkTooLong(q *sx) bool {
 type caseState struct {
 	num      string
 	merge    bool
+	cfg      bluge.Config
+	snapDone bool // the `snap` line of the current reader has been printed
 	writer   *bluge.Writer
 	reader   *bluge.Reader
 	refReader *bluge.Reader // same documents, taken one epoch earlier: its snapshot is not the writer's current root, so it never recycles postings iterators (history-free reference)
@@ -664,6 +666,7 @@ func openCase(num string, merge bool) string {
 			ic.MergePlanOptions.FloorSegmentSize = 1
 			cfg = cfg.VerifWithIndexConfig(ic)
 		}
+		cur.cfg = cfg
 		w, err := bluge.OpenWriter(cfg)
 		if err != nil {
 			cur.broken = true
@@ -732,6 +735,7 @@ func ensureReader(st *hlib.Stats) bool {
 		}
 		cur.refReader = rr
 		cur.reader = rd
+		cur.snapDone = false
 		return "ok"
 	})
 	if res != "ok" {
@@ -1183,6 +1187,12 @@ func execQuery(line, src string, out func(string, string), st *hlib.Stats) {
 		st.Case(key, false)
 		return
 	}
+	if !cur.snapDone {
+		// the physical layout of the snapshot the queries run on: offsets, sizes, ids, deleted marks
+		cur.snapDone = true
+		out("snap", layoutOf(cur.reader))
+		st.Count("op:snap")
+	}
 	aq, _ := annotate(q)
 	as := aq.String()
 	var res [3]string
@@ -1202,6 +1212,14 @@ func execQuery(line, src string, out func(string, string), st *hlib.Stats) {
 			}
 		}
 		out("q "+m+" "+as, shown)
+	}
+	if !cur.poisoned && res[0] != "timeout" && res[0] != "panic" {
+		// node-level trace of the real searcher tree (scored, and unadorned under score none)
+		out("trace all "+as, traceSearch(cur.reader, cur.cfg, q, 0, st))
+		if res[2] != "timeout" && res[2] != "panic" {
+			out("trace none "+as, traceSearch(cur.reader, cur.cfg, q, 2, st))
+		}
+		st.Count("op:trace")
 	}
 	nontrivial := false
 	switch res[0] {
@@ -1761,6 +1779,18 @@ func (h) Gen(r *hlib.Rand, tier string, scale int, emit func(string)) {
 	}
 	caseNo++
 
+	// geo corpora built around one query circle: clusters of points in the corners of the circle's
+	// bounding box (inside the coarse cell cover, outside the circle) with adjacent doc numbers, and
+	// boolean shapes that make the parent ADVANCE the geo (filtering) searcher
+	ngeo := 4 * scale
+	if tier == "thorough" {
+		ngeo = 60 * scale
+	}
+	for c := 0; c < ngeo; c++ {
+		genGeoCorner(r, caseNo, emit)
+		caseNo++
+	}
+
 	ncases := 50 * scale
 	if tier == "thorough" {
 		ncases = 1500 * scale
@@ -1866,6 +1896,97 @@ func genCase(r *hlib.Rand, caseNo int, emit func(string)) {
 			g.geoLeft = maxGeoPerQuery
 		}
 		emit("q " + g.query(1).String())
+	}
+}
+
+// genGeoCorner: one circle (centre, radius); documents are placed relative to it:
+//   corner  at 0.90-0.95 of the half-width AND half-height of the circle's bounding box (distance about
+//           1.3 radius: matched by the box/cell cover the geo searcher starts from, rejected by its filter),
+//           in runs of 2-4 consecutive doc numbers, most of them carrying the rare tag k=<tag>;
+//   inside  at 0.1-0.6 radius; far at more than 3 radii (outside the box); some documents without a point.
+// No point lies within 20% of the circle's edge, so every answer is decided (never `na`).
+func genGeoCorner(r *hlib.Rand, caseNo int, emit func(string)) {
+	emit(fmt.Sprintf("case %d merge=0", caseNo))
+	centres := [][2]float64{{2.35, 48.85}, {-74, 40.7}, {139.7, 35.7}, {151.2, -33.9}, {10, 0.5}, {-0.1, 51.5}}
+	c := centres[r.Intn(len(centres))]
+	radius := []float64{100e3, 50e3, 200e3}[r.Weighted(60, 20, 20)]
+	dLat := radius / 111195.08
+	dLon := dLat / math.Cos(c[1]*math.Pi/180)
+	tag := []string{"ab", "cd", "ba"}[r.Intn(3)]
+	other := "dc"
+	words := []string{"a", "b", "c", "ab"}
+	sign := func() float64 {
+		if r.Bool() {
+			return 1
+		}
+		return -1
+	}
+	next := 0
+	doc := func(kind int, tagged bool) string {
+		id := "d" + strconv.Itoa(next)
+		next++
+		toks := []string{id, "t=" + words[r.Intn(len(words))] + "," + words[r.Intn(len(words))]}
+		if tagged {
+			toks = append(toks, "k="+tag)
+		} else if r.Chance(60) {
+			toks = append(toks, "k="+other)
+		}
+		var lon, lat float64
+		switch kind {
+		case 0: // corner
+			lon = c[0] + sign()*(0.90+float64(r.Intn(6))/100)*dLon
+			lat = c[1] + sign()*(0.90+float64(r.Intn(6))/100)*dLat
+		case 1: // inside
+			f := 0.1 + float64(r.Intn(6))/10
+			a := float64(r.Intn(360)) * math.Pi / 180
+			lon = c[0] + f*dLon*math.Cos(a)
+			lat = c[1] + f*dLat*math.Sin(a)
+		case 2: // far
+			lon = clamp(c[0]+sign()*(3+float64(r.Intn(20)))*dLon, -179, 179)
+			lat = clamp(c[1]+sign()*(3+float64(r.Intn(10)))*dLat, -85, 85)
+		default:
+			return "ins " + strings.Join(toks, " ")
+		}
+		toks = append(toks, "g="+fhx(lon)+","+fhx(lat))
+		return "ins " + strings.Join(toks, " ")
+	}
+	nb := r.Range(1, 3)
+	for b := 0; b < nb; b++ {
+		emit("seg")
+		for grp, ngrp := 0, r.Range(3, 7); grp < ngrp; grp++ {
+			switch r.Weighted(45, 25, 20, 10) {
+			case 0:
+				for i, k := 0, r.Range(2, 4); i < k; i++ {
+					emit(doc(0, r.Chance(75)))
+				}
+			case 1:
+				emit(doc(1, r.Chance(40)))
+			case 2:
+				emit(doc(2, r.Chance(40)))
+			default:
+				emit(doc(3, r.Chance(40)))
+			}
+		}
+	}
+	gd := func() *sx { return node("gd", at("g"), at(fhx(c[0])), at(fhx(c[1])), at(fhx(radius))) }
+	tg := func() *sx { return node("t", at("k"), at(tag)) }
+	tw := func() *sx { return node("t", at("t"), at(words[r.Intn(len(words))])) }
+	b := func(min int, m, s, n []*sx) *sx {
+		return node("b", at(strconv.Itoa(min)), ls(m...), ls(s...), ls(n...))
+	}
+	qs := []*sx{
+		b(0, []*sx{tg(), gd()}, nil, nil),
+		b(0, []*sx{gd(), tg()}, nil, nil),
+		b(1, []*sx{tg()}, []*sx{gd()}, nil),
+		b(0, []*sx{tg()}, nil, []*sx{gd()}),
+		b(0, []*sx{b(0, []*sx{tg(), gd()}, nil, nil)}, nil, []*sx{tw()}),
+		b(0, []*sx{tw(), gd()}, nil, nil),
+		b(0, []*sx{tg(), tw(), gd()}, nil, nil),
+		b(1, []*sx{tg()}, []*sx{gd(), tw()}, nil),
+		gd(),
+	}
+	for _, q := range qs {
+		emit("q " + q.String())
 	}
 }
 
